@@ -57,6 +57,14 @@ CLAIMED = {
              'soundness are not decided.',
         note=STATIC_NOTE,
         technique='static analysis: HIR effect-schedule extraction + normal-form comparison; MIR must-call'),
+    'C09': dict(
+        text='Non-interference by static effect analysis: Value is opaque outside midnight-proofs (privacy + who-may-call of its two escape hatches), every closure '
+             'handed to a Value combinator in the four downstream crates is enumerated and must be pure w.r.t. circuit structure (no mutable capture, no '
+             'Region/Layouter/Selector/ConstraintSystem/RefCell API, no write to captured places; tabled exceptions each carry a checked containment rule), the '
+             'keygen and proving back-ends partition structure/witness, and lazy tables depend only on flags set outside value closures. A sufficient-condition '
+             'argument for "structure is independent of witnesses", exhaustive over all closures; witness-conditioned panics are out of scope.',
+        note=STATIC_NOTE + ' Trusted: the list of Value combinators and the absence of unsafe transmutes of Value.',
+        technique='static analysis: type-directed effect analysis of closures (HIR captures + calls) + who-may-call'),
     'C10': dict(
         text='Decides ONLY the decoder clause: every checked field decoder of the exported fields reaches the modulus comparison of its type, uses its result and '
              'returns failures (CHECKED table over the call graph, with result liveness). Field arithmetic, constants, towers, square roots and uniform reduction '
